@@ -83,3 +83,12 @@ func vpStr(s string) []byte { return append(vpBE(uint64(len(s)), 2), s...) }
 type vpEmb struct {
 	E int16 `nbt:"e"`
 }
+
+func vpASCII(s string) bool {
+	for i := 0; i < len(s); i++ {
+		if s[i] >= 0x80 {
+			return false
+		}
+	}
+	return true
+}
